@@ -2,6 +2,7 @@ package rangeproof
 
 import (
 	"fmt"
+	"math"
 	"strconv"
 
 	"github.com/privacybydesign/gabi/big"
@@ -443,6 +444,9 @@ func (p *Proof) ProvesStatement(sign int, factor uint, bound *big.Int) bool {
 		return false
 	}
 	if len(p.Cs) == 3 {
+		if factor > math.MaxUint/4 {
+			return false // factor*4 would wrap around
+		}
 		factor *= 4
 		bound = new(big.Int).Mul(bound, big.NewInt(4))
 		bound.Sub(bound, big.NewInt(2))
